@@ -247,7 +247,14 @@ func runOneJob(self, logDir string, idx int, job Job) *JobRes {
 			res.TimedOut = true
 			res.Inconclusive = append(res.Inconclusive, fmt.Sprintf("child exceeded its %d s watchdog (see %s)", to, lf))
 		} else {
-			res.Died = fmt.Sprintf("child process died (exit %d, err %v); last step: %s", code, err, lastStep(lf))
+			first := tail
+			if i := strings.Index(first, "\n"); i >= 0 {
+				first = first[:i]
+			}
+			if !(strings.HasPrefix(first, "panic:") || strings.HasPrefix(first, "fatal error:")) {
+				first = "no panic line in the log"
+			}
+			res.Died = fmt.Sprintf("child process died (exit %d, err %v): %s; last step: %s", code, err, first, lastStep(lf))
 		}
 		res.Notes = append(res.Notes, tail)
 	}
